@@ -38,8 +38,15 @@ var (
 	}}
 )
 
+// big odd multipliers: coordinate differences near 2^28 with many significant bits (products are not
+// representable in float64, unlike the power-of-two multiples of Ebig); the map is linear, so lattice
+// collinearity is preserved exactly
+var EbigOdd = Embed{Name: "E_bigodd", Big: true, F: func(x, y int64) Pt {
+	return Pt{X: (x-1)*134217729 + 3*(y-1), Y: (y-1)*134217731 + 5*(x-1)}
+}}
+
 func EmbedByName(n string) Embed {
-	for _, e := range []Embed{Eax, Esh, Ean, Eunit, Eax20, Esh20, Ebig, EbigSk} {
+	for _, e := range []Embed{Eax, Esh, Ean, Eunit, Eax20, Esh20, Ebig, EbigSk, EbigOdd} {
 		if e.Name == n {
 			return e
 		}
